@@ -293,6 +293,19 @@ class Poll(BasePoller):
             self._read_ctrl()
             return
 
+        try:
+            current = fd if isinstance(fd, int) else fd.fileno()
+        except (OSError, ValueError):
+            current = -1  # closed file object
+        if current != fileno:
+            # the registered object was closed without discard() and its
+            # number now belongs to another descriptor: forget it
+            with contextlib.suppress(KeyError, ValueError):
+                self._poller.unregister(fileno)
+            super().discard(fd)
+            del self._map[fileno]
+            return
+
         if event & self._disconnected_flag and not (event & select.POLLIN):
             self.fire(_disconnect(fd), self.getTarget(fd))
             self._poller.unregister(fileno)
